@@ -83,6 +83,8 @@ pub fn queries() -> Vec<(T, bool)> {
         (cplx("pp", vec![v("$Z")]), false),
         (cplx("two", vec![v("$Z"), v("$W")]), false),
         (cplx("eq", vec![v("$Z"), cplx("f", vec![v("$W")])]), false),
+        // a query without variables
+        (cplx("p", vec![atom("b")]), false),
         (cplx("sl", vec![v("$Z")]), true),
     ]
 }
@@ -408,12 +410,21 @@ pub fn histories(prop: &str, tier: &str, f: &mut dyn FnMut(Vec<Sess>)) {
             f(vec![*a, *b]);
         }
     }
-    // length 3: fast sessions only in the quick tier; one slow session anywhere in thorough
-    for a in &al {
-        for b in &al {
-            for c in &al {
+    // length 3.  quick: a sub-alphabet with one session of every query and of every mode, plus
+    // the timed-out solve_all in first position; thorough: everything with at most one slow session
+    let sub: Vec<Sess> = if thorough {
+        al.clone()
+    } else {
+        let pick = [(0, Mode::NextOne), (0, Mode::NextAll), (0, Mode::SolveAll), (1, Mode::Solve), (2, Mode::NextAll), (3, Mode::SolveAll), (4, Mode::NextOne), (5, Mode::Solve), (6, Mode::NextAll), (6, Mode::SolveAll)];
+        let mut v: Vec<Sess> = pick.iter().map(|(q, m)| Sess { q: *q, mode: *m }).collect();
+        v.push(Sess { q: queries().len() - 1, mode: Mode::SolveAll });
+        v
+    };
+    for a in &sub {
+        for b in &sub {
+            for c in &sub {
                 let ns = [a, b, c].iter().filter(|s| is_slow(s)).count();
-                if ns > 1 || (ns == 1 && !thorough) {
+                if ns > 1 || (ns == 1 && !thorough && !is_slow(a)) {
                     continue;
                 }
                 f(vec![*a, *b, *c]);
